@@ -1,30 +1,30 @@
 import P2sh.Model.Proto
 import P2sh.Spec.Rfc
 import P2sh.Props.C16
-import P2sh.Props.C15
 /-!
 # C17 — assigning a header field changes exactly that field
 
 Per header (pcap record, Ethernet, VLAN, IPv4, IPv6, TCP, UDP), over the `set_*` / `get_*` models:
 
-* `set_frame` — an accepted assignment to `p` leaves every other getter unchanged (only `tcp.len` / `tcp.dataoff`
-  are two names of one field);
+* `set_frame` — an accepted assignment to `p` leaves every other getter unchanged (`tcp.len` / `tcp.dataoff` are two
+  names of one field);
 * `set_get_in_range` — an integer within the RFC width of a writable numeric field is accepted and read back;
 * `set_checked_invalid` — Ethernet / VLAN / IPv4 refuse an out-of-range integer (nothing changes);
-  `set_cast_invalid_partial` — pcap / IPv6 / TCP / UDP store it modulo 2^width, where the width is the RFC one for
-  every field except `tcp.dataoff` (8 bits kept instead of 4), `tcp.flags` (16 instead of 8) and `ipv6.flowlabel`
-  (32 instead of 20): witnesses `tcp_dataoff_keeps_8_bits_witness`, `tcp_flags_keeps_16_bits_witness`,
-  `ipv6_flowlabel_keeps_32_bits_witness`;
-* `set_wrong_kind` — a value that is not an integer is refused by every numeric setter;
-* `*_reparse` — serialise-then-parse gives the header back (UDP, VLAN, pcap record, Ethernet, IPv4 in full; IPv6 when the
-  flow label fits 20 bits; TCP for every field but the data offset and the urgent pointer);
-  `tcp_dataoff_lost_witness`, `tcp_flags_clobber_dataoff_witness`, `tcp_urgent_lost_witness`,
-  `ipv6_flowlabel_spills_witness` run the assignment, the serialisation and the re-parse on a concrete packet.
+  `set_cast_invalid` — pcap / IPv6 / TCP / UDP store it modulo 2^width, the width being the RFC one for every field;
+* `set_wrong_kind`, `set_version_refused` — a value that is not an integer, and any assignment to `version`, is refused;
+* `*_reparse` — serialise-then-parse gives the header back, for every header whose fields are within their widths
+  (for IPv4 and TCP: whose option bytes are as many as the length field says) — so a value read back immediately is also
+  the value read after writing and re-reading the packet, and, with `getter_is_slice`, the written bytes differ from the
+  old ones only inside the field.
+
+History: before /repo commits aefd4e7 and 3aaa561 `tcp.dataoff` kept 8 bits and was not written back, `tcp.flags` kept
+16 bits and overwrote the data-offset nibble, `tcp.urgent` was never written, `ipv6.flowlabel` kept 32 bits and spilled
+into the traffic class; `set_cast_invalid` and the TCP / IPv6 re-parse theorems were `_partial` and seven witnesses
+recorded the violations.
 -/
 namespace P2sh.Props.C17
 open P2sh P2sh.Proto P2sh.Spec
 open P2sh.Props.C16 (hdrLayer)
-open P2sh.Props.C15 (tcpFrame rec0)
 
 /-! ## other properties are unchanged -/
 
@@ -95,7 +95,6 @@ theorem set_frame (hd hd' : Hdr) (p q : PP) (v : SetVal) (hs : hd.set p v = some
 
 /-! ## set then get; invalid values -/
 
-
 theorem castU_in_range (bits : Nat) (i : Int) (h0 : 0 ≤ i) (h1 : i < (2 ^ bits : Nat)) : castU bits i = i.toNat := by
   unfold castU
   rw [Int.emod_eq_of_lt h0 h1]
@@ -115,8 +114,11 @@ theorem set_get_in_range (hd : Hdr) (p : PP) (o w : Nat) (i : Int)
   cases hd <;> cases p <;> simp [hdrLayer, Rfc.layout, Rfc.kindOf, Rfc.readOnly] at hlay hk hro <;>
     obtain ⟨rfl, rfl⟩ := hlay <;>
     simp (disch := omega) [Hdr.set, Hdr.get, PcapHdr.set, PcapHdr.get, EthHdr.set, EthHdr.get, VlanHdr.set, VlanHdr.get, Ipv4Hdr.set, Ipv4Hdr.get,
-      Ipv6Hdr.set, Ipv6Hdr.get, TcpHdr.set, TcpHdr.get, UdpHdr.set, UdpHdr.get, checked_in_range, casted_in_range]
+      Ipv6Hdr.set, Ipv6Hdr.get, TcpHdr.set, TcpHdr.get, UdpHdr.set, UdpHdr.get, checked_in_range, casted_in_range] <;> omega
 
+/-- `tcp.flags = 0x12` on a header with reserved bits 0xA: read back 0x12; `tcp.dataoff = 9`: read back 9 -/
+example (h : TcpHdr) : ((Hdr.tcp h).set .flags (.int 0x12)).bind (fun hd' => hd'.get .flags) = some (.num 0x12) :=
+  set_get_in_range (.tcp h) .flags 104 8 0x12 rfl rfl rfl (by decide) (by decide)
 
 theorem checked_out_of_range (hi : Nat) (i : Int) (h : i < 0 ∨ i > hi) : checked hi (.int i) = none := by
   simp [checked, h]
@@ -136,33 +138,28 @@ theorem set_checked_invalid (hd : Hdr) (p : PP) (o w : Nat) (i : Int) (hc : isCh
     obtain ⟨rfl, rfl⟩ := hlay <;>
     simp (disch := omega) [Hdr.set, EthHdr.set, VlanHdr.set, Ipv4Hdr.set, checked_out_of_range]
 
-/-- the three cast setters that keep more bits than the field has -/
-def keepsTooManyBits : Hdr → PP → Bool
-  | .tcp _, .dataoff | .tcp _, .len | .tcp _, .flags | .ipv6 _, .flowlabel => true
-  | _, _ => false
+example (h : Ipv4Hdr) : (Hdr.ipv4 h).set .ttl (.int 256) = none :=
+  set_checked_invalid (.ipv4 h) .ttl 64 8 256 rfl rfl rfl (by decide)
 
 set_option maxHeartbeats 2000000 in
-/-- pcap record, IPv6, TCP and UDP store any integer reduced modulo 2^width — the RFC width, three setters excepted -/
-theorem set_cast_invalid_partial (hd : Hdr) (p : PP) (o w : Nat) (i : Int) (hc : isChecked hd = false)
+/-- **pcap record, IPv6, TCP and UDP store any integer reduced modulo 2^width, the width the RFC gives the field** -/
+theorem set_cast_invalid (hd : Hdr) (p : PP) (o w : Nat) (i : Int) (hc : isChecked hd = false)
     (hlay : Rfc.layout (hdrLayer hd) p = some (o, w)) (hk : Rfc.kindOf (hdrLayer hd) p = .num)
-    (hro : Rfc.readOnly (hdrLayer hd) p = false) (hx : keepsTooManyBits hd p = false) :
+    (hro : Rfc.readOnly (hdrLayer hd) p = false) :
     (hd.set p (.int i)).bind (fun hd' => hd'.get p) = some (.num (i % (2 ^ w : Nat)).toNat) := by
   cases hd <;> simp [isChecked] at hc <;> cases p <;>
-    simp [hdrLayer, Rfc.layout, Rfc.kindOf, Rfc.readOnly, keepsTooManyBits] at hlay hk hro hx <;>
+    simp [hdrLayer, Rfc.layout, Rfc.kindOf, Rfc.readOnly] at hlay hk hro <;>
     obtain ⟨rfl, rfl⟩ := hlay <;>
-    simp [Hdr.set, Hdr.get, PcapHdr.set, PcapHdr.get, Ipv6Hdr.set, Ipv6Hdr.get, TcpHdr.set, TcpHdr.get, UdpHdr.set, UdpHdr.get, casted, castU]
+    simp [Hdr.set, Hdr.get, PcapHdr.set, PcapHdr.get, Ipv6Hdr.set, Ipv6Hdr.get, TcpHdr.set, TcpHdr.get, UdpHdr.set, UdpHdr.get, casted, castU] <;>
+    omega
 
-theorem tcp_dataoff_keeps_8_bits_witness (h : TcpHdr) :
-    ((Hdr.tcp h).set .dataoff (.int 0xAB)).bind (fun hd' => hd'.get .dataoff) = some (.num 0xAB) := by
-  simp [Hdr.set, Hdr.get, TcpHdr.set, TcpHdr.get, casted, castU]
-
-theorem tcp_flags_keeps_16_bits_witness (h : TcpHdr) :
-    ((Hdr.tcp h).set .flags (.int 0xABCD)).bind (fun hd' => hd'.get .flags) = some (.num 0xABCD) := by
-  simp [Hdr.set, Hdr.get, TcpHdr.set, TcpHdr.get, casted, castU]
-
-theorem ipv6_flowlabel_keeps_32_bits_witness (h : Ipv6Hdr) :
-    ((Hdr.ipv6 h).set .flowlabel (.int 0xFFFFFFFF)).bind (fun hd' => hd'.get .flowlabel) = some (.num 0xFFFFFFFF) := by
-  simp [Hdr.set, Hdr.get, Ipv6Hdr.set, Ipv6Hdr.get, casted, castU]
+/-- 21 bits into the flow label: 20 are kept; 0xAB into the data offset: 0xB; 0xABCD into the flags: 0xCD -/
+example (h6 : Ipv6Hdr) (ht : TcpHdr) :
+    ((Hdr.ipv6 h6).set .flowlabel (.int 0x1FFFFF)).bind (fun hd' => hd'.get .flowlabel) = some (.num 0xFFFFF) ∧
+    ((Hdr.tcp ht).set .dataoff (.int 0xAB)).bind (fun hd' => hd'.get .dataoff) = some (.num 0xB) ∧
+    ((Hdr.tcp ht).set .flags (.int 0xABCD)).bind (fun hd' => hd'.get .flags) = some (.num 0xCD) :=
+  ⟨set_cast_invalid (.ipv6 h6) .flowlabel 12 20 _ rfl rfl rfl rfl, set_cast_invalid (.tcp ht) .dataoff 96 4 _ rfl rfl rfl rfl,
+   set_cast_invalid (.tcp ht) .flags 104 8 _ rfl rfl rfl rfl⟩
 
 set_option maxHeartbeats 2000000 in
 /-- a value that is not an integer is refused by every numeric setter -/
@@ -174,15 +171,25 @@ theorem set_wrong_kind (hd : Hdr) (p : PP) (o w : Nat) (v : SetVal) (hv : ∀ i,
   cases hd <;> cases p <;> simp [hdrLayer, Rfc.layout, Rfc.kindOf] at hlay hk <;>
     simp [Hdr.set, PcapHdr.set, EthHdr.set, VlanHdr.set, Ipv4Hdr.set, Ipv6Hdr.set, TcpHdr.set, UdpHdr.set, hc, hcast]
 
+example (h : UdpHdr) : (Hdr.udp h).set .srcport (.str ['8', '0']) = none :=
+  set_wrong_kind (.udp h) .srcport 0 16 _ (by intro i; simp) rfl rfl
+
 /-- `version` is read-only -/
 theorem set_version_refused (hd : Hdr) (v : SetVal) : hd.set .version v = none := by
   cases hd <;> simp [Hdr.set, PcapHdr.set, EthHdr.set, VlanHdr.set, Ipv4Hdr.set, Ipv6Hdr.set, TcpHdr.set, UdpHdr.set]
 
 /-! ## serialise and re-parse -/
 
-
 /-- reading a serialised header back: byte `i` of a byte string, 0 beyond its end -/
 def reader (bs : Bytes) : Nat → Nat := fun i => bs.getD i 0
+
+/-- the bytes appended after a fixed part are read back as they are -/
+theorem read_back_tail (pre l : Bytes) :
+    (List.range l.length).map (fun i => reader (pre ++ l) (pre.length + i)) = l := by
+  apply List.ext_getElem
+  · simp
+  · intro i h1 h2
+    simp [reader, List.getD_eq_getElem?_getD, List.getElem?_append_right, List.getElem?_eq_getElem h2]
 
 theorem udp_reparse (h : UdpHdr) (h1 : h.srcport < 65536) (h2 : h.dstport < 65536) (h3 : h.len < 65536) (h4 : h.checksum < 65536) :
     UdpHdr.parse (reader h.toBytes) = h := by
@@ -207,33 +214,35 @@ theorem eth_reparse (d0 d1 d2 d3 d4 d5 s0 s1 s2 s3 s4 s5 et : Nat) (het : et < 6
   simp [EthHdr.parse, EthHdr.toBytes, reader, be16, u16be]
   omega
 
-theorem ipv4_reparse (version ihl dscp ecn totlen ident flags fragoff ttl proto checksum a0 a1 a2 a3 b0 b1 b2 b3 : Nat)
+example : EthHdr.parse (reader (EthHdr.toBytes ⟨[1, 2, 3, 4, 5, 6], [7, 8, 9, 10, 11, 12], 0x0800⟩)) =
+    ⟨[1, 2, 3, 4, 5, 6], [7, 8, 9, 10, 11, 12], 0x0800⟩ := eth_reparse _ _ _ _ _ _ _ _ _ _ _ _ _ (by decide)
+
+
+theorem range_map_getD (l : Bytes) : (List.range l.length).map (fun i => l.getD i 0) = l := by
+  apply List.ext_getElem
+  · simp
+  · intro i h1 h2
+    simp [List.getD_eq_getElem?_getD, List.getElem?_eq_getElem h2]
+
+theorem ipv4_reparse (version ihl dscp ecn totlen ident flags fragoff ttl proto checksum a0 a1 a2 a3 b0 b1 b2 b3 : Nat) (opts : Bytes)
     (hv : version < 16) (hi : ihl < 16) (hd : dscp < 64) (he : ecn < 4) (ht : totlen < 65536) (hid : ident < 65536)
-    (hf : flags < 8) (hfo : fragoff < 8192) (hc : checksum < 65536) :
-    Ipv4Hdr.parse (reader (Ipv4Hdr.toBytes ⟨version, ihl, dscp, ecn, totlen, ident, flags, fragoff, ttl, proto, checksum, [a0, a1, a2, a3], [b0, b1, b2, b3], []⟩)) =
-      ⟨version, ihl, dscp, ecn, totlen, ident, flags, fragoff, ttl, proto, checksum, [a0, a1, a2, a3], [b0, b1, b2, b3], []⟩ := by
-  simp [Ipv4Hdr.parse, Ipv4Hdr.toBytes, reader, be16, u16be]
-  omega
-
-/-- TCP: what comes back after serialise + parse.  The data offset is whatever the top nibble of `flags` says and the
-urgent pointer is the next two bytes of the stream (0 here: nothing follows) — both differ from the header written. -/
-theorem tcp_reparse_partial (h : TcpHdr) (h1 : h.srcport < 65536) (h2 : h.dstport < 65536) (h3 : h.seq < 4294967296)
-    (h4 : h.ack < 4294967296) (h5 : h.flags < 65536) (h6 : h.win < 65536) (h7 : h.checksum < 65536) (h8 : h.options = []) :
-    TcpHdr.parse (reader h.toBytes) = { h with dataoff := h.flags / 4096, urgent := 0 } := by
-  cases h
-  simp only at h8
-  subst h8
-  simp [TcpHdr.parse, TcpHdr.toBytes, reader, be16, be32, u16be, u32be] at *
-  omega
-
+    (hf : flags < 8) (hfo : fragoff < 8192) (hc : checksum < 65536) (hopt : opts.length = max (ihl * 4) 20 - 20) :
+    Ipv4Hdr.parse (reader (Ipv4Hdr.toBytes ⟨version, ihl, dscp, ecn, totlen, ident, flags, fragoff, ttl, proto, checksum, [a0, a1, a2, a3], [b0, b1, b2, b3], opts⟩)) =
+      ⟨version, ihl, dscp, ecn, totlen, ident, flags, fragoff, ttl, proto, checksum, [a0, a1, a2, a3], [b0, b1, b2, b3], opts⟩ := by
+  have hb0 : (version * 16 % 256 + ihl) % 256 % 16 = ihl := by omega
+  have hn : max (ihl % 16 * 4) 20 - 20 = opts.length := by rw [hopt]; congr 2; omega
+  simp [Ipv4Hdr.parse, Ipv4Hdr.toBytes, Ipv4Hdr.hdrLen, reader, be16, u16be, Nat.add_comm 20, hn]
+  have hr := range_map_getD opts
+  simp only [List.getD_eq_getElem?_getD] at hr
+  refine ⟨by omega, by omega, by omega, by omega, by omega, by omega, by omega, by omega, by omega, hr⟩
 
 theorem or_disjoint : ∀ x y : Fin 16, (x.val * 16) ||| y.val = x.val * 16 + y.val := by decide
 
 theorem or_disjoint' (a b : Nat) (ha : a < 16) (hb : b < 16) : (a * 16) ||| b = a * 16 + b := or_disjoint ⟨a, ha⟩ ⟨b, hb⟩
 
-/-- IPv6 comes back unchanged when the flow label fits its 20 bits -/
-theorem ipv6_reparse_partial (version tc flow plen nh hop s0 s1 s2 s3 s4 s5 s6 s7 d0 d1 d2 d3 d4 d5 d6 d7 : Nat)
-    (hv : version < 16) (htc : tc < 256) (hfl : flow < 1048576) (hpl : plen < 65536) 
+/-- IPv6 comes back unchanged (every field within its width: the setters guarantee it) -/
+theorem ipv6_reparse (version tc flow plen nh hop s0 s1 s2 s3 s4 s5 s6 s7 d0 d1 d2 d3 d4 d5 d6 d7 : Nat)
+    (hv : version < 16) (htc : tc < 256) (hfl : flow < 1048576) (hpl : plen < 65536)
     (hs : ∀ g ∈ [s0, s1, s2, s3, s4, s5, s6, s7, d0, d1, d2, d3, d4, d5, d6, d7], g < 65536) :
     Ipv6Hdr.parse (reader (Ipv6Hdr.toBytes ⟨version, tc, flow, plen, nh, hop, [s0, s1, s2, s3, s4, s5, s6, s7], [d0, d1, d2, d3, d4, d5, d6, d7]⟩)) =
       ⟨version, tc, flow, plen, nh, hop, [s0, s1, s2, s3, s4, s5, s6, s7], [d0, d1, d2, d3, d4, d5, d6, d7]⟩ := by
@@ -245,34 +254,53 @@ theorem ipv6_reparse_partial (version tc flow plen nh hop s0 s1 s2 s3 s4 s5 s6 s
   simp [Ipv6Hdr.parse, reader, be16, u16be, v6Bytes, v6Groups, List.range, List.range.loop, List.flatMap]
   omega
 
-/-! ## the violations present today, on concrete packets -/
+/-- **TCP comes back unchanged**: data offset, reserved and control bits, urgent pointer, options -/
+theorem tcp_reparse (srcport dstport seq ack dataoff flags win checksum urgent : Nat) (opts : Bytes)
+    (h1 : srcport < 65536) (h2 : dstport < 65536) (h3 : seq < 4294967296) (h4 : ack < 4294967296) (hdo : dataoff < 16)
+    (h5 : flags < 4096) (h6 : win < 65536) (h7 : checksum < 65536) (h8 : urgent < 65536)
+    (hopt : opts.length = max (dataoff * 4) 20 - 20) :
+    TcpHdr.parse (reader (TcpHdr.toBytes ⟨srcport, dstport, seq, ack, dataoff, flags, win, checksum, urgent, opts⟩)) =
+      ⟨srcport, dstport, seq, ack, dataoff, flags, win, checksum, urgent, opts⟩ := by
+  have hw : (dataoff % 16 * 4096 + flags % 4096) / 256 % 256 / 16 = dataoff := by omega
+  have hn : max ((dataoff % 16 * 4096 + flags % 4096) / 256 % 256 / 16 * 4) 20 - 20 = opts.length := by rw [hw, hopt]
+  have hr := range_map_getD opts
+  simp only [List.getD_eq_getElem?_getD] at hr
+  simp [TcpHdr.parse, TcpHdr.toBytes, TcpHdr.hdrLen, reader, be16, be32, u16be, u32be, Nat.add_comm 20, hn]
+  refine ⟨by omega, by omega, by omega, by omega, by omega, by omega, by omega, by omega, by omega, hr⟩
 
+example : TcpHdr.parse (reader (TcpHdr.toBytes ⟨80, 8080, 1, 2, 6, 0xA12, 512, 7, 0x1234, [1, 2, 3, 4]⟩)) =
+    ⟨80, 8080, 1, 2, 6, 0xA12, 512, 7, 0x1234, [1, 2, 3, 4]⟩ :=
+  tcp_reparse _ _ _ _ _ _ _ _ _ _ (by decide) (by decide) (by decide) (by decide) (by decide) (by decide) (by decide) (by decide) (by decide) (by decide)
+
+
+example : Ipv4Hdr.parse (reader (Ipv4Hdr.toBytes ⟨4, 6, 1, 2, 50, 7, 2, 9, 64, 6, 0xABCD, [10, 0, 0, 1], [10, 0, 0, 2], [1, 2, 3, 4]⟩)) =
+    ⟨4, 6, 1, 2, 50, 7, 2, 9, 64, 6, 0xABCD, [10, 0, 0, 1], [10, 0, 0, 2], [1, 2, 3, 4]⟩ :=
+  ipv4_reparse _ _ _ _ _ _ _ _ _ _ _ _ _ _ _ _ _ _ _ _ (by decide) (by decide) (by decide) (by decide) (by decide) (by decide) (by decide)
+    (by decide) (by decide) (by decide)
+
+/-! ## assignments on a concrete packet: read back, written, re-parsed, read again -/
 
 def numOf : Out → Option Nat
   | .ok (.int i) => some i.toInt.toNat
   | _ => none
 
-def outNums (os : List Out) : List (Option Nat) := os.map numOf
+/-- Ethernet + IPv4 + TCP (data offset 5, SYN/ACK, urgent pointer 0x1234) + two bytes -/
+def tcpFrame : Bytes :=
+  [0,1,2,3,4,5, 6,7,8,9,10,11, 8,0,
+   0x45,0,0,42, 0,0,0,0, 64,6,0,0, 10,0,0,1, 10,0,0,2,
+   0x1f,0x90,0,80, 0,0,0,1, 0,0,0,2, 0x50,0x12,0xff,0xff, 0xab,0xcd,0x12,0x34, 0xde,0xad]
 
-/-- `tcp.dataoff = 9`: read back as 9, but the bytes written still say 5, and so does the re-parsed packet -/
-theorem tcp_dataoff_lost_witness :
-    outNums ((Pkt.new (rec0 tcpFrame) tcpFrame).run
-      [.set .pkt [.eth, .ipv4, .tcp, .dataoff] (.int 9), .get .pkt [.eth, .ipv4, .tcp, .dataoff], .reparse,
-       .get .pkt [.eth, .ipv4, .tcp, .dataoff]]).2 = [some 9, some 9, none, some 5] := by
-  decide
+def rec0 (raw : Bytes) : PcapHdr := { sec := 0, usec := 0, caplen := raw.length, wirelen := raw.length }
 
-/-- `tcp.flags = 0x10` (ACK): the data offset nibble of the written header becomes 0 -/
-theorem tcp_flags_clobber_dataoff_witness :
-    outNums ((Pkt.new (rec0 tcpFrame) tcpFrame).run
-      [.get .pkt [.eth, .ipv4, .tcp, .dataoff], .set .pkt [.eth, .ipv4, .tcp, .flags] (.int 16), .reparse,
-       .get .pkt [.eth, .ipv4, .tcp, .dataoff], .get .pkt [.eth, .ipv4, .tcp, .flags]]).2 = [some 5, some 16, none, some 0, some 16] := by
-  decide
-
-/-- `tcp.urgent = 7`: read back as 7, but never written; after re-parsing the field holds the first payload bytes (0xdead) -/
-theorem tcp_urgent_lost_witness :
-    outNums ((Pkt.new (rec0 tcpFrame) tcpFrame).run
-      [.set .pkt [.eth, .ipv4, .tcp, .urgent] (.int 7), .get .pkt [.eth, .ipv4, .tcp, .urgent], .reparse,
-       .get .pkt [.eth, .ipv4, .tcp, .urgent]]).2 = [some 7, some 7, none, some 0xdead] := by
+/-- `tcp.flags = 0x10`, `tcp.urgent = 7`, `tcp.srcport = 1`: each is read back, survives write + re-parse, and leaves
+the data offset alone -/
+example :
+    ((Pkt.new (rec0 tcpFrame) tcpFrame).run
+      [.set .pkt [.eth, .ipv4, .tcp, .flags] (.int 16), .set .pkt [.eth, .ipv4, .tcp, .urgent] (.int 7),
+       .set .pkt [.eth, .ipv4, .tcp, .srcport] (.int 1), .get .pkt [.eth, .ipv4, .tcp, .flags], .reparse,
+       .get .pkt [.eth, .ipv4, .tcp, .flags], .get .pkt [.eth, .ipv4, .tcp, .urgent], .get .pkt [.eth, .ipv4, .tcp, .srcport],
+       .get .pkt [.eth, .ipv4, .tcp, .dataoff]]).2.map numOf
+      = [some 16, some 7, some 1, some 16, none, some 16, some 7, some 1, some 5] := by
   decide
 
 /-- Ethernet + IPv6 (traffic class 0, flow label 0) + UDP -/
@@ -280,12 +308,12 @@ def v6Frame : Bytes :=
   [0,1,2,3,4,5, 6,7,8,9,10,11, 0x86,0xdd,
    0x60,0,0,0, 0,8, 17, 64] ++ List.replicate 15 0 ++ [1] ++ List.replicate 15 0 ++ [2] ++ [0,53,0,53, 0,8,0,0]
 
-/-- `ipv6.flowlabel = 0x1FFFFF` (21 bits): read back as such, and the traffic class of the written packet becomes 1 -/
-theorem ipv6_flowlabel_spills_witness :
-    outNums ((Pkt.new (rec0 v6Frame) v6Frame).run
-      [.get .pkt [.eth, .ipv6, .trafficclass], .set .pkt [.eth, .ipv6, .flowlabel] (.int 0x1FFFFF), .get .pkt [.eth, .ipv6, .flowlabel],
-       .reparse, .get .pkt [.eth, .ipv6, .trafficclass], .get .pkt [.eth, .ipv6, .flowlabel]]).2
-      = [some 0, some 0x1FFFFF, some 0x1FFFFF, none, some 1, some 0xFFFFF] := by
+/-- `ipv6.flowlabel = 0x1FFFFF` (21 bits): 20 bits are kept and the traffic class stays 0 after write + re-parse -/
+example :
+    ((Pkt.new (rec0 v6Frame) v6Frame).run
+      [.set .pkt [.eth, .ipv6, .flowlabel] (.int 0x1FFFFF), .get .pkt [.eth, .ipv6, .flowlabel], .reparse,
+       .get .pkt [.eth, .ipv6, .trafficclass], .get .pkt [.eth, .ipv6, .flowlabel]]).2.map numOf
+      = [some 0x1FFFFF, some 0xFFFFF, none, some 0, some 0xFFFFF] := by
   decide
 
 end P2sh.Props.C17
